@@ -7,14 +7,14 @@ from . import c01, c03
 
 ID = "C02"
 KINDS = {"U": ["weight_triangle", "nearest_decoder_corrects", "ml_is_nearest", "ml_corrects", "ml_corrects_large", "syndrome_decoder_corrects", "syndrome_table_entry", "hamming_inverse_corrects",
-               "bm_reduction (BMProofs.correct_add_of_zero, syndAt_codeword)", "bm_corrects_small", "bm_output_certified (BMProofs.light_zero_syndromes_zero)", "bm_corrects_t1 (BMProofs.bm_t1, locate_single)", "bm_no_error",
+               "bm_reduction (BMProofs.correct_add_of_zero, syndAt_codeword)", "bm_corrects_small", "bm_output_certified (BMProofs.light_zero_syndromes_zero)", "bm_corrects_t1 (BMProofs.bm_t1, locate_single)", "bm_corrects_t2 (BMProofs.bm_t2, disc2_char2, locate_pair)", "bm_no_error",
                "ReedProofs.reed_corrects (reed_decoder_corrects)"],
          "R": ["syndrome_decoder_instances"],
          "K": ["C03.instances_ok (distances, shared catalogue)", "C01.instances_ok (null space, right inverse)", "C03.bch_ok", "bm_light_small", "reed_ok", "reed_instances_in_catalogue"]}
 PARTIAL = ["Berlekamp-Massey: modelled (Kaira/BM.lean: syndromes, tabular BM, Chien-style search) and tied line by line (decoded messages, internals); "
            "proved: the correction depends on the syndromes only, syndromes are additive and vanish on code words of a certified BCH instance, hence "
            "decoding (code word + e) = decoding e on the zero code word for EVERY instance (bm_reduction); full correctness within capability is a "
-           "theorem for t = 1 at every length (bm_corrects_t1) and where the kernel can run the decoder on every light pattern (bm_corrects_small); for the larger instances the light "
+           "theorem for t = 1 and t = 2 at every length (bm_corrects_t1, bm_corrects_t2) and where the kernel can run the decoder on every light pattern (bm_corrects_small); for the larger instances the light "
            "patterns on the zero code word are run through the compiled model and the implementation by the check (exhaustive where <= 700 / 3000 patterns) - "
            "a test of the model lifted by the theorem, not a proof that the BM recursion finds the locator",
            "syndrome-table decoder, Hamming inverse and RM nearest-codeword inverse: tied to executable models by the correspondence; "
